@@ -131,7 +131,7 @@ def exposeLanding (s : Schema) (onType : String) (x : ExposeField) : Option Stri
 def ExposeField.exposedName (x : ExposeField) : String :=
   match x.asName with
   | some n => n
-  | none => x.path.getLast?.getD ""
+  | none => x.path.head?.getD ""
 
 def isExposedOn (p : Project) (ty name : String) : Bool :=
   p.extensions.any fun e => e.expose.any fun x =>
